@@ -227,7 +227,7 @@ def load_known(prop):
     if not os.path.exists(p):
         return []
     kf = json.load(open(p))
-    return [f for f in kf.get("findings", []) if f.get("property") == prop]
+    return [f for f in kf.get("findings", []) if f.get("property") == prop or prop in (f.get("also") or [])]
 
 
 def write_replay(ctx, obj):
